@@ -26,6 +26,7 @@
 #include <unifex/sender_concepts.hpp>
 #include <unifex/stream_concepts.hpp>
 #include <unifex/unstoppable_token.hpp>
+#include <unifex/detail/verif_hooks.hpp>
 
 #include <atomic>
 #include <exception>
@@ -330,9 +331,11 @@ private:
           }
           UNIFEX_CATCH(...) { source_cleanup_error(std::current_exception()); }
 
+          UNIFEX_VERIF_YIELD("stream.tu.cl_load");
           if (!stream_.cleanupReady_.load(std::memory_order_acquire)) {
             stream_.cleanupOperation_ = this;
             stream_.stopSource_.request_stop();
+            UNIFEX_VERIF_YIELD("stream.tu.cl_xchg");
             if (!stream_.cleanupReady_.exchange(
                     true, std::memory_order_acq_rel)) {
               // The trigger cleanup is not yet ready to run.
@@ -360,7 +363,9 @@ private:
         }
 
         void source_cleanup_done() noexcept {
+          UNIFEX_VERIF_YIELD("stream.tu.join_load");
           if (!cleanupCompleted_.load(std::memory_order_acquire)) {
+            UNIFEX_VERIF_YIELD("stream.tu.join_xchg");
             if (!cleanupCompleted_.exchange(true, std::memory_order_acq_rel)) {
               // We were first to register completion of the cleanup op.
               // Let the other operation call the final receiver.
@@ -379,7 +384,9 @@ private:
         void source_cleanup_error(std::exception_ptr ex) noexcept {
           sourceError_ = std::move(ex);
 
+          UNIFEX_VERIF_YIELD("stream.tu.join_load");
           if (!cleanupCompleted_.load(std::memory_order_acquire)) {
+            UNIFEX_VERIF_YIELD("stream.tu.join_xchg");
             if (!cleanupCompleted_.exchange(true, std::memory_order_acq_rel)) {
               // trigger cleanup not yet finished.
               // let the trigger_receiver call the final receiver.
@@ -394,7 +401,9 @@ private:
         }
 
         void trigger_cleanup_done() noexcept {
+          UNIFEX_VERIF_YIELD("stream.tu.join_load");
           if (!cleanupCompleted_.load(std::memory_order_acquire)) {
+            UNIFEX_VERIF_YIELD("stream.tu.join_xchg");
             if (!cleanupCompleted_.exchange(true, std::memory_order_acq_rel)) {
               // We were first to register completion of the cleanup op.
               // Let the other operation call the final receiver.
@@ -413,7 +422,9 @@ private:
         void trigger_cleanup_error(std::exception_ptr ex) noexcept {
           triggerError_ = std::move(ex);
 
+          UNIFEX_VERIF_YIELD("stream.tu.join_load");
           if (!cleanupCompleted_.load(std::memory_order_acquire)) {
+            UNIFEX_VERIF_YIELD("stream.tu.join_xchg");
             if (!cleanupCompleted_.exchange(true, std::memory_order_acq_rel)) {
               // source cleanup not yet finished.
               // let the source_receiver call the final receiver.
@@ -452,8 +463,10 @@ private:
       triggerNextOp_;
 
   void trigger_next_done() noexcept {
+    UNIFEX_VERIF_YIELD("stream.tu.tnd_load");
     if (!cleanupReady_.load(std::memory_order_acquire)) {
       stopSource_.request_stop();
+      UNIFEX_VERIF_YIELD("stream.tu.tnd_xchg");
       if (!cleanupReady_.exchange(true, std::memory_order_acq_rel)) {
         // Successfully registered completion of next(trigger)
         // before someone called cleanup(stream). We have passed
